@@ -112,3 +112,56 @@ let () = Reg.register "c21.types" (fun inp _out ->
     then "bad:accessor-panics-absent-child-of-category-named-TokenSet"
     else "bad:inferred-fields-do-not-fit-some-child-sequence" in
   (L (SL.map put_bool res), verdict))
+
+(* ---------- c21.infer: the step-by-step model of syntax/types.go (Infer.extract_types) ---------- *)
+module I = Infer
+
+let get_str x = SL.map get_n (lst x)
+let put_str s = L (SL.map put_n s)
+
+let rec iexpr_of x = match lst x with
+  | [A "e"] -> I.XEmpty
+  | [A "k"] -> I.XLook
+  | [A "r"; s] -> I.XRef (get_nat s)
+  | [A "a"; n; e] -> I.XArrow (get_str n, iexpr_of e)
+  | A "q" :: subs -> I.XSeq (SL.map iexpr_of subs)
+  | A "c" :: subs -> I.XChoice (SL.map iexpr_of subs)
+  | [A "s"; n; e] -> I.XAssign (get_str n, iexpr_of e)
+  | [A "p"; n; e] -> I.XAppend (get_str n, iexpr_of e)
+  | [A "o"; e] -> I.XOpt (iexpr_of e)
+  | [A "l"; e; sep; oom] -> I.XList (iexpr_of e, iexpr_of sep, get_bool oom)
+  | [A "x"; e] -> I.XPrec (iexpr_of e)
+  | _ -> failwith "iexpr"
+
+let imodel_of x = match lst x with
+  | [nterms; nts; inputs; cats; toks] ->
+    { I.m_nterms = get_nat nterms;
+      I.m_nonterms = SL.map iexpr_of (lst nts);
+      I.m_inputs = SL.map (fun i -> match lst i with [n; s] -> (get_nat n, get_bool s) | _ -> failwith "input") (lst inputs);
+      I.m_cats = SL.map get_str (lst cats);
+      I.m_tokens = SL.map (fun t -> match lst t with [k; n] -> (get_nat k, get_str n) | _ -> failwith "token") (lst toks) }
+  | _ -> failwith "imodel"
+
+let () = Reg.register "c21.infer" (fun inp out ->
+  let m = imodel_of inp in
+  let t = I.extract_types m in
+  let rts = SL.map2 (fun n fs ->
+    L [put_str n; L (SL.map (fun f -> L [put_str f.I.rf_name; L (SL.map put_str f.I.rf_sel); put_z f.I.rf_after;
+                                          put_bool f.I.rf_req; put_bool f.I.rf_list]) fs)]) t.I.t_names t.I.t_fields in
+  let cats = SL.map (fun (n, ts) -> L [put_str n; L (SL.map put_str ts)]) t.I.t_cats in
+  let model = L [L rts; L cats; L [A "err"; put_bool t.I.t_err_assign; put_bool t.I.t_err_cats; put_bool t.I.t_err_overlap]] in
+  (* oracle on the implementation's output, independent of the model: structural sanity of the inferred types *)
+  let verdict = (match out with
+    | L [L rts; L _; L (A "err" :: _)] ->
+      let ok = SL.for_all (fun rt -> match rt with
+        | L [_; L fs] ->
+          let n = SL.length fs in
+          let rec chk i = function
+            | [] -> true
+            | L [_; L sel; after; _; _] :: r -> let a = get_int after in sel <> [] && a >= -1 && a < i && chk (i + 1) r
+            | _ -> false in
+          ignore n; chk 0 fs
+        | _ -> false) rts in
+      if ok then "ok" else "bad:inferred-field-has-empty-selector-or-forward-fetch-after"
+    | _ -> "bad:extract-types-output-malformed") in
+  (model, verdict))
